@@ -320,6 +320,12 @@ def _zc_job(job):
             ev = A.run_findzc(samples, t, step, rate, width, start + i, limit=2)
             _HANGS[0] += 1 if ev["hung"] else 0
             ev["pred"] = pred
+        elif kind == "findh":
+            if _HANGS[0] >= 2:
+                continue
+            _, samples, t, step, rate, width, hist = v
+            ev = A.run_findzc(samples, t, step, rate, width, start + i, limit=2, history=hist)
+            _HANGS[0] += 1 if ev["hung"] else 0
         elif kind == "tgzc":
             ev = A.run_tgzc(v[1], v[2], v[3], start + i)
         else:
@@ -360,7 +366,13 @@ def rand_zc_vectors(sz, seed):
         step = rng.choice([2 * M, 3 * M, 5 * M] if dy else [10, 3 * M, 5 * M + 1])
         if rng.random() < 0.04:
             step = rng.choice([1, M, M + 2])                     # fewer than two samples: must be rejected
-        out.append(("find", s, t, step, rate, width, None))
+        if rng.random() < 0.15 and L >= 2:
+            # the same recording, reached on one Wav object by a search followed by an in-place insert
+            p = rng.randint(0, L - 1)
+            n_ins = rng.randint(1, min(4, L - p))
+            out.append(("findh", s, t, step, rate, width, (p, s[p:p + n_ins])))
+        else:
+            out.append(("find", s, t, step, rate, width, None))
     return out
 
 
